@@ -27,7 +27,14 @@ def kfFlags (c : GenCfg) : List (String × GenCfg) :=
   (if c.lcStructStopPanics then [("lc-struct-stop-panics", { c with lcStructStopPanics := false })] else []) ++
   (if c.lcElemStopZero then [("lc-elem-stop-zero", { c with lcElemStopZero := false })] else []) ++
   (if c.deqPtrLeafNilUnchecked then [("deq-ptr-leaf-nil", { c with deqPtrLeafNilUnchecked := false })] else []) ++
-  (if c.deqNilBeforeMustCheck then [("deq-nil-before-mustcheck", { c with deqNilBeforeMustCheck := false })] else [])
+  (if c.deqNilBeforeMustCheck then [("deq-nil-before-mustcheck", { c with deqNilBeforeMustCheck := false })] else []) ++
+  (if c.copyRootSliceLost then [("copy-root-slice-lost", { c with copyRootSliceLost := false })] else []) ++
+  (if c.copyRootMapPanics then [("copy-root-map-panics", { c with copyRootMapPanics := false })] else []) ++
+  (if c.copyPtrShared then [("copy-ptr-shared", { c with copyPtrShared := false })] else []) ++
+  (if c.copyNilElemPanics then [("copy-nil-elem-panics", { c with copyNilElemPanics := false })] else []) ++
+  (if c.copyNilDestPanics then [("copy-nil-dest-panics", { c with copyNilDestPanics := false })] else []) ++
+  (if c.resetNilPtrPanics then [("reset-nil-ptr-panics", { c with resetNilPtrPanics := false })] else []) ++
+  (if c.copyEmptyPtrCollDropped then [("copy-empty-ptr-coll-dropped", { c with copyEmptyPtrCollDropped := false })] else [])
 
 def allFixed (c : GenCfg) : GenCfg :=
   (kfFlags c).foldl (fun _acc _x => GenCfg.fixed) c
@@ -191,6 +198,158 @@ def opDeq (st : St) (head identToks optToks outToks : List String) : String :=
     | _, _, _, _, _, _, _, _ => "skip unresolved-input"
   | _, _, _ => "skip bad-record"
 
+/-- Observation of a Copy / CopyTo / Reset call. -/
+inductive CpObs
+  | ok (shared : Nat) (deq : String) (same : Bool) (v : Val)
+  | other (tag : String)
+
+def CpObs.beq : CpObs → CpObs → Bool
+  | .ok s d m v, .ok s' d' m' v' => s == s' && d == d' && m == m' && v == v'
+  | .other a, .other b => a == b
+  | _, _ => false
+instance : BEq CpObs := ⟨CpObs.beq⟩
+
+def showCpObs : CpObs → String
+  | .ok s d m v => s!"ok {s} {d} {if m then 1 else 0} " ++ showVal v
+  | .other t => t
+
+def parseCpObs (n : Node) : List String → Option CpObs
+  | "ok" :: s :: d :: m :: rest => do
+    let (v, _) ← parseVal rest
+    pure (.ok (← s.toNat?) d (m == "1") (dropCaps (coerce n v)))
+  | [t] => some (.other t)
+  | _ => none
+
+def copyObsOf (cfg : GenCfg) (n : Node) (src : Val) (o : CopyOut) : CpObs :=
+  match o with
+  | .ok v s =>
+    -- pointer-typed map keys of the copy are found by DeepEqual exactly when the copy shares them
+    let d := showDeqOut (deqM { cfg := cfg, ident := cfg.copyPtrShared } n .ptr .ptr src v)
+    .ok s d true (dropCaps v)
+  | .panic => .other "panic"
+  | .unsupported => .other "unsupported"
+  | .mustPointer => .other "mustpointer"
+
+def cpAccepts (n : Node) (src : Val) (expectRefusal : Option String) (o : CpObs) : Bool :=
+  match expectRefusal, o with
+  | some t, .other t' => t == t'
+  | some _, _ => false
+  | none, .ok s d m v => copyAccepts n src v s (d == "t") m
+  | none, .other _ => false
+
+/-- CP <tid> <form> <vid> | - | <obs> -/
+def opCopy (st : St) (head outToks : List String) : String :=
+  match head with
+  | [_, tid, form, vid] =>
+    match st.types[tid]?, st.vals[vid]?, parseForm form with
+    | some n, some v, some f =>
+      (match parseCpObs n outToks with
+       | some impl =>
+         let refusal := match f with | .foreign | .untypedNil => some "unsupported" | _ => none
+         let nilRoot := match rootOf f with | .ok | .early => false | _ => true
+         classify st.cfg (fun c => copyObsOf c n v (copyM c n f v)) (fun o => nilRoot || cpAccepts n v refusal o) impl showCpObs
+       | none => "skip unparsable-outcome")
+    | _, _, _ => "skip unresolved-input"
+  | _ => "skip bad-head"
+
+/-- CT <tid> <fs> <fd> <vsrc> <vdst> | <bufclass> | <obs> -/
+def opCopyTo (st : St) (head outToks : List String) : String :=
+  match head with
+  | [_, tid, fs, fd, vs, vd] =>
+    match st.types[tid]?, st.vals[vs]?, st.vals[vd]?, parseForm fs, parseForm fd with
+    | some n, some src, some dst, some fs, some fd =>
+      (match parseCpObs n outToks with
+       | some impl =>
+         let refusal := match fs, fd with
+           | .foreign, _ | .untypedNil, _ => some "unsupported"
+           | _, .val => some "mustpointer"
+           | _, .foreign | _, .untypedNil => some "unsupported"
+           | _, _ => none
+         classify st.cfg (fun c => copyObsOf c n src (copyToM c n fs fd src dst)) (cpAccepts n src refusal) impl showCpObs
+       | none => "skip unparsable-outcome")
+    | _, _, _, _, _ => "skip unresolved-input"
+  | _ => "skip bad-head"
+
+def resetObsOf (o : ResetOut) : CpObs :=
+  match o with
+  | .ok v => .ok 0 "-" true (dropCaps v)
+  | .panic => .other "panic"
+  | .unsupported => .other "unsupported"
+  | .mustPointer => .other "mustpointer"
+
+/-- RS <tid> <form> <vid> | - | ok <val> | panic | … -/
+def opReset (st : St) (head outToks : List String) : String :=
+  match head with
+  | [_, tid, form, vid] =>
+    match st.types[tid]?, st.vals[vid]?, parseForm form with
+    | some n, some v, some f =>
+      let impl : Option CpObs := match outToks with
+        | "ok" :: rest => (parseVal rest).map fun (x, _) => CpObs.ok 0 "-" true (dropCaps (coerce n x))
+        | [t] => some (.other t)
+        | _ => none
+      (match impl with
+       | some impl =>
+         let acc (o : CpObs) : Bool :=
+           match f, o with
+           | .val, .other t => t == "mustpointer"
+           | .foreign, .other t | .untypedNil, .other t => t == "unsupported"
+           | .ptr, .ok _ _ _ x | .ptrptr, .ok _ _ _ x => isEmptyV x
+           | .nilPtr, _ | .ptrNilPtr, _ | .nilPtrPtr, _ => true
+           | _, _ => false
+         classify st.cfg (fun c => resetObsOf (resetM c n f v)) acc impl showCpObs
+       | none => "skip unparsable-outcome")
+    | _, _, _ => "skip unresolved-input"
+  | _ => "skip bad-head"
+
+/-- One step of a cycle as observed: destination after Reset and after CopyTo. -/
+def cycleModel (cfg : GenCfg) (n : Node) : Val → List Val → List CpObs
+  | _, [] => []
+  | d, s :: rest =>
+    match resetN cfg n d with
+    | .panic => [.other "panic"]
+    | .ok r =>
+      match copyN cfg n true r s with
+      | .panic => [.ok 0 "r" true (dropCaps r), .other "panic"]
+      | .ok c _ => .ok 0 "r" true (dropCaps r) :: .ok 0 "c" true (dropCaps c) :: cycleModel cfg n c rest
+
+partial def parseCycleSteps (n : Node) : List (List String) → Option (List CpObs)
+  | [] => some []
+  | step :: rest =>
+    let parts := (" ".intercalate step).splitOn " ; "
+    let one (p : String) : Option CpObs :=
+      match (p.splitOn " ").filter (· ≠ "") with
+      | "r" :: toks => (parseVal toks).map fun (x, _) => CpObs.ok 0 "r" true (dropCaps (coerce n x))
+      | "c" :: toks => (parseVal toks).map fun (x, _) => CpObs.ok 0 "c" true (dropCaps (coerce n x))
+      | [t] => some (.other t)
+      | _ => none
+    do
+      let here ← parts.mapM one
+      let more ← parseCycleSteps n rest
+      pure (here ++ more)
+
+/-- C08: after every Reset the destination is empty; after every CopyTo it is the cycle's source up to
+nil/empty identification. -/
+def cycleAccepts : List Val → List CpObs → Bool
+  | [], [] => true
+  | s :: rest, .ok _ "r" _ r :: .ok _ "c" _ c :: more => isEmptyV r && approxEq s c && cycleAccepts rest more
+  | _, _ => false
+
+instance : BEq (List CpObs) := ⟨fun a b => a.length == b.length && (a.zip b).all fun (x, y) => x == y⟩
+
+/-- CY <tid> <vd0> <vs1> … | <bufclass> | <step> | <step> … -/
+def opCycle (st : St) (parts : List (List String)) : String :=
+  match parts with
+  | (_ :: tid :: vd :: vss) :: _buf :: steps =>
+    match st.types[tid]?, st.vals[vd]?, vss.mapM (fun v => st.vals[v]?) with
+    | some n, some d0, some srcs =>
+      (match parseCycleSteps n steps with
+       | some impl =>
+         classify st.cfg (fun c => cycleModel c n d0 srcs) (cycleAccepts srcs) impl
+           (fun l => " / ".intercalate (l.map showCpObs))
+       | none => "skip unparsable-outcome")
+    | _, _, _ => "skip unresolved-input"
+  | _ => "skip bad-record"
+
 def handle (st : St) (line : String) : St × Option String :=
   match splitBar line with
   | ("T" :: tid :: toks) :: _ =>
@@ -208,14 +367,22 @@ def handle (st : St) (line : String) : St × Option String :=
   | [head, path, out] =>
     match head.head? with
     | some "GT" | some "G" => (st, some (opGet st head path out))
+    | some "CP" => (st, some (opCopy st head out))
+    | some "CT" => (st, some (opCopyTo st head out))
+    | some "RS" => (st, some (opReset st head out))
+    | some "CY" => (st, some (opCycle st [head, path, out]))
     | _ => (st, some "skip unknown-op")
   | [head, path, arg, out] =>
     match head.head? with
     | some "C" => (st, some (opCmp st head path arg out))
     | some "LC" => (st, some (opLC st head path arg out))
     | some "D" => (st, some (opDeq st head path arg out))
+    | some "CY" => (st, some (opCycle st [head, path, arg, out]))
     | _ => (st, some "skip unknown-op")
-  | _ => (st, some "skip malformed")
+  | parts =>
+    match parts.head? with
+    | some ("CY" :: _) => (st, some (opCycle st parts))
+    | _ => (st, some "skip malformed")
 
 partial def loop (h : IO.FS.Stream) (st : St) (lineNo : Nat) : IO Unit := do
   let line ← h.getLine
